@@ -568,6 +568,14 @@ func (lb *LoadBalancer) IsBackendHealthy(backend *Backend) bool {
 	return isHealthy
 }
 
+// healthFlag returns the backend's health flag under its lock (window expiry is
+// handled by LoadBalancer.IsBackendHealthy)
+func (backend *Backend) healthFlag() bool {
+	backend.Mutex.RLock()
+	defer backend.Mutex.RUnlock()
+	return backend.IsHealthy
+}
+
 // IncrementConnections increments the active connection count for a backend
 func (backend *Backend) IncrementConnections() {
 	atomic.AddInt32(&backend.ActiveConnections, 1)
@@ -672,7 +680,23 @@ func (lb *LoadBalancer) handleRequest(w http.ResponseWriter, r *http.Request, st
 
 // findHealthyBackend attempts to find a healthy backend with retries
 func (lb *LoadBalancer) findHealthyBackend(r *http.Request) *Backend {
-	for i := 0; i < 3; i++ { // Try up to 3 times to find a healthy backend
+	lb.mutex.RLock()
+	backends := lb.strategy.GetBackends()
+	lb.mutex.RUnlock()
+
+	// Let elapsed unhealthy windows lapse first: strategies that filter on the health
+	// flag would otherwise never look at a recovered backend again
+	for _, backend := range backends {
+		lb.IsBackendHealthy(backend)
+	}
+
+	// A pick may land on an ejected backend; allow one pick per backend (at least 3)
+	// so that ejected backends can never hide a healthy one
+	tries := len(backends)
+	if tries < 3 {
+		tries = 3
+	}
+	for i := 0; i < tries; i++ {
 		backend := lb.NextBackend(r)
 		if backend == nil {
 			return nil
